@@ -1,10 +1,757 @@
 (** SquashProofs: theorems about the Squash model (C10). *)
 From Coq Require Import String.
 From Coq Require Import List Ascii ZArith Bool Lia.
-From CGV Require Import Base.PyBase Base.PyVal Base.NxGraph Gen.HydroGen Hydro.Hydrogens Hydro.Squash.
+From CGV Require Import Base.PyBase Base.PyVal Base.NxGraph Gen.HydroGen Hydro.Hydrogens Hydro.Squash
+     Hydro.GraphLemmas Hydro.SquashDefs.
 Import ListNotations.
 Open Scope Z_scope.
 
 (** the constants regenerated from resolve.py are the ones the theorems are about *)
 Lemma squash_constants : squash_self_loops = false /\ squash_concat_attrs = [S "fragid"; S "mapping"].
 Proof. split; reflexivity. Qed.
+
+(** ------------------------------------------------------------ adjacency lists *)
+Lemma adj_get_adj_set x v d l : adj_get x (adj_set v d l) = if Z.eqb x v then Some d else adj_get x l.
+Proof.
+  induction l as [|[w b] l IH]; cbn.
+  - rewrite (Z.eqb_sym v x). reflexivity.
+  - destruct (Z.eqb w v) eqn:Ewv; cbn.
+    + apply Z.eqb_eq in Ewv. subst w. rewrite (Z.eqb_sym v x). destruct (Z.eqb x v); reflexivity.
+    + destruct (Z.eqb w x) eqn:Ewx.
+      * apply Z.eqb_eq in Ewx. subst w. rewrite Ewv. reflexivity.
+      * exact IH.
+Qed.
+Lemma adj_get_adj_del x v l : adj_get x (adj_del v l) = if Z.eqb x v then None else adj_get x l.
+Proof.
+  unfold adj_del. induction l as [|[w b] l IH]; cbn [filter adj_get fst].
+  - destruct (Z.eqb x v); reflexivity.
+  - destruct (Z.eqb w v) eqn:Ewv; cbn [negb].
+    + rewrite IH. apply Z.eqb_eq in Ewv. subst w. rewrite (Z.eqb_sym v x). destruct (Z.eqb x v); reflexivity.
+    + cbn [adj_get]. destruct (Z.eqb w x) eqn:Ewx.
+      * apply Z.eqb_eq in Ewx. subst w. rewrite Ewv. reflexivity.
+      * exact IH.
+Qed.
+
+Lemma has_node_gfind g k : has_node g k = true <-> exists n, gfind k g = Some n.
+Proof. unfold has_node. destruct (gfind k g); split; eauto; try discriminate. intros [n H]. discriminate. Qed.
+Lemma has_node_keys g k : has_node g k = true <-> In k (node_keys g).
+Proof.
+  rewrite has_node_gfind. split.
+  - intros [n H]. destruct (in_dec Z.eq_dec k (node_keys g)) as [i|ni]; [assumption|].
+    apply gfind_none_keys in ni. congruence.
+  - apply gfind_some_keys.
+Qed.
+Lemma has_edge_has_node g y x : has_edge g y x = true -> has_node g y = true.
+Proof. unfold has_edge, has_node. destruct (gfind y g); [reflexivity|discriminate]. Qed.
+
+(** ------------------------------------------------------------ add_edge between existing nodes *)
+Definition eqpair (y x a b : Z) : bool := (Z.eqb y a && Z.eqb x b) || (Z.eqb y b && Z.eqb x a).
+
+Lemma add_edge_present g a b d : has_node g a = true -> has_node g b = true ->
+  exists d', add_edge g a b d =
+    gupdate b (fun n => {| nk := nk n; na := na n; nadj := adj_set a d' (nadj n) |})
+      (gupdate a (fun n => {| nk := nk n; na := na n; nadj := adj_set b d' (nadj n) |}) g).
+Proof. intros Ha Hb. unfold add_edge. rewrite Ha, Hb. eexists. reflexivity. Qed.
+
+Lemma has_edge_add_edge g a b d y x : has_node g a = true -> has_node g b = true ->
+  has_edge (add_edge g a b d) y x = has_edge g y x || eqpair y x a b.
+Proof.
+  intros Ha Hb. destruct (add_edge_present g a b d Ha Hb) as [d' ->].
+  unfold has_edge, eqpair. rewrite !gfind_gupdate by reflexivity.
+  apply has_node_gfind in Ha as [na_ Ha]. apply has_node_gfind in Hb as [nb_ Hb].
+  destruct (gfind y g) as [n|] eqn:Ey.
+  - destruct (Z.eqb y b), (Z.eqb y a); cbn [option_map nadj andb orb]; rewrite ?adj_get_adj_set;
+      destruct (Z.eqb x a), (Z.eqb x b), (adj_get x (nadj n)); reflexivity.
+  - destruct (Z.eqb_spec y a) as [->|Na]; [congruence|].
+    destruct (Z.eqb_spec y b) as [->|Nb]; [congruence|]. reflexivity.
+Qed.
+
+Lemma keys_add_edge g a b d : has_node g a = true -> has_node g b = true ->
+  node_keys (add_edge g a b d) = node_keys g.
+Proof.
+  intros Ha Hb. destruct (add_edge_present g a b d Ha Hb) as [d' ->].
+  rewrite !node_keys_gupdate by reflexivity. reflexivity.
+Qed.
+Lemma nattrs_add_edge g a b d y : has_node g a = true -> has_node g b = true ->
+  nattrs (add_edge g a b d) y = nattrs g y.
+Proof.
+  intros Ha Hb. destruct (add_edge_present g a b d Ha Hb) as [d' ->].
+  unfold nattrs. rewrite !gfind_gupdate by reflexivity.
+  destruct (Z.eqb y b), (Z.eqb y a), (gfind y g); reflexivity.
+Qed.
+Lemma has_node_same_keys g h k : node_keys g = node_keys h -> has_node g k = has_node h k.
+Proof.
+  intros E. destruct (has_node g k) eqn:A; destruct (has_node h k) eqn:B; try reflexivity.
+  - apply has_node_keys in A. rewrite E in A. apply has_node_keys in A. congruence.
+  - apply has_node_keys in B. rewrite <- E in B. apply has_node_keys in B. congruence.
+Qed.
+
+(** a fold of add_edge over triples whose end points exist *)
+Definition add_edges (l : list (Z * Z * attrs)) (g : graph) : graph :=
+  fold_left (fun acc e => add_edge acc (fst (fst e)) (snd (fst e)) (snd e)) l g.
+Lemma add_edges_spec l : forall g,
+  (forall e, In e l -> has_node g (fst (fst e)) = true /\ has_node g (snd (fst e)) = true) ->
+  node_keys (add_edges l g) = node_keys g /\
+  (forall y, nattrs (add_edges l g) y = nattrs g y) /\
+  (forall y x, has_edge (add_edges l g) y x
+               = has_edge g y x || existsb (fun e => eqpair y x (fst (fst e)) (snd (fst e))) l).
+Proof.
+  induction l as [|[[a b] d] l IH]; intros g H.
+  - cbn. repeat split; intros; rewrite ?orb_false_r; reflexivity.
+  - destruct (H (a, b, d) (or_introl eq_refl)) as [Ha Hb]. cbn [fst snd] in Ha, Hb.
+    unfold add_edges. cbn [fold_left fst snd]. fold (add_edges l (add_edge g a b d)).
+    pose proof (keys_add_edge g a b d Ha Hb) as K.
+    destruct (IH (add_edge g a b d)) as (K2 & N2 & E2).
+    { intros e He. destruct (H e (or_intror He)) as [X Y].
+      split; [rewrite (has_node_same_keys _ g _ K); exact X|rewrite (has_node_same_keys _ g _ K); exact Y]. }
+    repeat split.
+    + congruence.
+    + intros y. rewrite N2. apply nattrs_add_edge; assumption.
+    + intros y x. rewrite E2, has_edge_add_edge by assumption. cbn [existsb fst snd].
+      rewrite orb_assoc. reflexivity.
+Qed.
+
+(** ------------------------------------------------------------ remove_node *)
+Lemma gfind_filter_ne g v y : Z.eqb y v = false ->
+  gfind y (filter (fun n => negb (Z.eqb (nk n) v)) g) = gfind y g.
+Proof.
+  intros N. induction g as [|n r IH]; cbn; [reflexivity|].
+  destruct (Z.eqb (nk n) v) eqn:E; cbn.
+  - destruct (Z.eqb (nk n) y) eqn:Ey; [|exact IH].
+    apply Z.eqb_eq in E, Ey. subst. rewrite Z.eqb_refl in N. discriminate.
+  - destruct (Z.eqb (nk n) y); [reflexivity|exact IH].
+Qed.
+Lemma gfind_filter_eq g v : gfind v (filter (fun n => negb (Z.eqb (nk n) v)) g) = None.
+Proof.
+  induction g as [|n r IH]; cbn; [reflexivity|].
+  destruct (Z.eqb (nk n) v) eqn:E; cbn; [exact IH|rewrite E; exact IH].
+Qed.
+Lemma gfind_map g f y : (forall n, nk (f n) = nk n) -> gfind y (map f g) = option_map f (gfind y g).
+Proof.
+  intros H. induction g as [|n r IH]; cbn; [reflexivity|]. rewrite H.
+  destruct (Z.eqb (nk n) y); [reflexivity|exact IH].
+Qed.
+Lemma gfind_remove_node g v y :
+  gfind y (remove_node g v) =
+  if Z.eqb y v then None
+  else option_map (fun n => {| nk := nk n; na := na n; nadj := adj_del v (nadj n) |}) (gfind y g).
+Proof.
+  unfold remove_node. rewrite gfind_map by reflexivity.
+  destruct (Z.eqb y v) eqn:E.
+  - apply Z.eqb_eq in E. subst. rewrite gfind_filter_eq. reflexivity.
+  - rewrite gfind_filter_ne by exact E. reflexivity.
+Qed.
+Lemma has_edge_remove_node g v y x :
+  has_edge (remove_node g v) y x = negb (Z.eqb y v) && negb (Z.eqb x v) && has_edge g y x.
+Proof.
+  unfold has_edge. rewrite gfind_remove_node. destruct (Z.eqb y v); [reflexivity|].
+  destruct (gfind y g) as [n|]; cbn [option_map nadj negb andb]; [|now rewrite andb_false_r].
+  rewrite adj_get_adj_del. destruct (Z.eqb x v); reflexivity.
+Qed.
+Lemma keys_remove_node g v : node_keys (remove_node g v) = filter (fun k => negb (Z.eqb k v)) (node_keys g).
+Proof.
+  unfold remove_node, node_keys. rewrite map_map. cbn [nk].
+  induction g as [|n r IH]; cbn; [reflexivity|]. destruct (Z.eqb (nk n) v); cbn; [exact IH|now rewrite IH].
+Qed.
+Lemma nattrs_remove_node g v y : nattrs (remove_node g v) y = if Z.eqb y v then None else nattrs g y.
+Proof. unfold nattrs. rewrite gfind_remove_node. destruct (Z.eqb y v); [reflexivity|]. destruct (gfind y g); reflexivity. Qed.
+
+(** ------------------------------------------------------------ G.copy() *)
+Definition strip (n : nrec) : nrec := {| nk := nk n; na := na n; nadj := [] |}.
+Definition all_adj (g : graph) : list (Z * Z * attrs) :=
+  flat_map (fun n => map (fun wa => (nk n, fst wa, snd wa)) (nadj n)) g.
+
+Lemma copy_phase1 l : forall acc, NoDup (node_keys acc ++ node_keys l) ->
+  fold_left (fun acc n => add_node acc (nk n) (na n)) l acc = acc ++ map strip l.
+Proof.
+  induction l as [|n r IH]; intros acc H; cbn; [now rewrite app_nil_r|].
+  assert (Hn : has_node acc (nk n) = false).
+  { destruct (has_node acc (nk n)) eqn:E; [|reflexivity]. apply has_node_keys in E.
+    apply NoDup_remove_2 in H. exfalso. apply H. apply in_or_app. now left. }
+  unfold add_node at 2. rewrite Hn. rewrite IH.
+  - rewrite <- app_assoc. reflexivity.
+  - unfold node_keys in *. rewrite map_app, <- app_assoc. exact H.
+Qed.
+Lemma fold_left_flat_map {A B C} (f : A -> C -> A) (F : B -> list C) l : forall a,
+  fold_left f (flat_map F l) a = fold_left (fun a x => fold_left f (F x) a) l a.
+Proof. induction l as [|x l IH]; intros a; cbn; [reflexivity|]. rewrite fold_left_app. apply IH. Qed.
+Lemma fold_left_map {A B C} (f : A -> C -> A) (h : B -> C) l : forall a,
+  fold_left f (map h l) a = fold_left (fun a x => f a (h x)) l a.
+Proof. induction l as [|x l IH]; intros a; cbn; [reflexivity|apply IH]. Qed.
+Lemma fold_left_ext {A B} (f g : A -> B -> A) l : (forall a x, f a x = g a x) -> forall a, fold_left f l a = fold_left g l a.
+Proof. intros H. induction l as [|x l IH]; intros a; cbn; [reflexivity|]. rewrite H. apply IH. Qed.
+
+Lemma gcopy_eq g : NoDup (node_keys g) -> gcopy g = add_edges (all_adj g) (map strip g).
+Proof.
+  intros H. unfold gcopy. rewrite (copy_phase1 g gempty) by exact H. cbn [app gempty].
+  unfold add_edges, all_adj. rewrite fold_left_flat_map. apply fold_left_ext.
+  intros a n. rewrite fold_left_map. reflexivity.
+Qed.
+
+Lemma keys_strip g : node_keys (map strip g) = node_keys g.
+Proof. unfold node_keys. rewrite map_map. reflexivity. Qed.
+Lemma has_edge_strip g y x : has_edge (map strip g) y x = false.
+Proof. unfold has_edge. rewrite gfind_map by reflexivity. destruct (gfind y g); reflexivity. Qed.
+Lemma nattrs_strip g y : nattrs (map strip g) y = nattrs g y.
+Proof. unfold nattrs. rewrite gfind_map by reflexivity. destruct (gfind y g); reflexivity. Qed.
+
+Lemma adj_get_existsb x l : (match adj_get x l with Some _ => true | None => false end) = existsb (fun wa => Z.eqb x (fst wa)) l.
+Proof.
+  induction l as [|[w a] l IH]; cbn; [reflexivity|]. rewrite (Z.eqb_sym x w).
+  destruct (Z.eqb w x); [reflexivity|exact IH].
+Qed.
+Lemma existsb_orb {A} (f g : A -> bool) l : existsb (fun e => f e || g e) l = existsb f l || existsb g l.
+Proof.
+  induction l as [|e l IH]; cbn; [reflexivity|]. rewrite IH.
+  destruct (f e), (g e), (existsb f l), (existsb g l); reflexivity.
+Qed.
+Lemma existsb_flat_map {A B} (f : B -> bool) (F : A -> list B) l :
+  existsb f (flat_map F l) = existsb (fun a => existsb f (F a)) l.
+Proof. induction l as [|a l IH]; cbn; [reflexivity|]. rewrite existsb_app, IH. reflexivity. Qed.
+Lemma existsb_map {A B} (f : B -> bool) (h : A -> B) l : existsb f (map h l) = existsb (fun a => f (h a)) l.
+Proof. induction l as [|a l IH]; cbn; [reflexivity|now rewrite IH]. Qed.
+
+Lemma existsb_ext {A} (f g : A -> bool) l : (forall a, f a = g a) -> existsb f l = existsb g l.
+Proof. intros H. induction l as [|a l IH]; cbn; [reflexivity|now rewrite H, IH]. Qed.
+Lemma existsb_false {A} (l : list A) : existsb (fun _ => false) l = false.
+Proof. induction l; cbn; congruence. Qed.
+
+Lemma all_adj_dir g y x : NoDup (node_keys g) ->
+  existsb (fun e => Z.eqb y (fst (fst e)) && Z.eqb x (snd (fst e))) (all_adj g) = has_edge g y x.
+Proof.
+  intros H. unfold all_adj. rewrite existsb_flat_map. unfold has_edge.
+  induction g as [|n r IH]; cbn [existsb gfind]; [reflexivity|].
+  rewrite existsb_map. cbn [fst snd]. inversion H as [|? ? Hn Hr]; subst.
+  rewrite (Z.eqb_sym (nk n) y). destruct (Z.eqb y (nk n)) eqn:E.
+  - apply Z.eqb_eq in E. subst y.
+    replace (existsb (fun a => existsb _ (map _ (nadj a))) r) with false.
+    + rewrite orb_false_r. rewrite (existsb_ext _ (fun wa => Z.eqb x (fst wa))) by reflexivity.
+      rewrite <- adj_get_existsb. reflexivity.
+    + symmetry. apply not_true_is_false. intro T. apply existsb_exists in T as (m & Hm & Tm).
+      rewrite existsb_map in Tm. apply existsb_exists in Tm as (wa & _ & Twa). cbn [fst snd] in Twa.
+      apply andb_true_iff in Twa as [Twa _]. apply Z.eqb_eq in Twa. apply Hn. rewrite Twa.
+      unfold node_keys. apply in_map. exact Hm.
+  - rewrite (existsb_ext _ (fun _ => false)) by reflexivity. rewrite existsb_false.
+    cbn [orb]. apply IH. exact Hr.
+Qed.
+
+Lemma gcopy_spec g : NoDup (node_keys g) -> (forall y x, has_edge g y x = true -> has_node g x = true) ->
+  node_keys (gcopy g) = node_keys g /\ (forall y, nattrs (gcopy g) y = nattrs g y) /\
+  (forall y x, has_edge (gcopy g) y x = has_edge g y x || has_edge g x y).
+Proof.
+  intros Hnd Hcl. rewrite gcopy_eq by exact Hnd.
+  destruct (add_edges_spec (all_adj g) (map strip g)) as (K & N & E).
+  { intros e He. unfold all_adj in He. apply in_flat_map in He as (n & Hn & He).
+    apply in_map_iff in He as (wa & <- & Hwa). cbn [fst snd].
+    assert (Hk : gfind (nk n) g = Some n).
+    { clear - Hnd Hn. induction g as [|m r IH]; [contradiction|]. cbn. inversion Hnd; subst.
+      destruct Hn as [->|Hn]; [now rewrite Z.eqb_refl|].
+      destruct (Z.eqb (nk m) (nk n)) eqn:E; [|auto].
+      apply Z.eqb_eq in E. exfalso. apply H1. rewrite E. unfold node_keys. now apply in_map. }
+    split.
+    - rewrite (has_node_same_keys _ g) by apply keys_strip. apply has_node_gfind. eauto.
+    - rewrite (has_node_same_keys _ g) by apply keys_strip. apply (Hcl (nk n)).
+      unfold has_edge. rewrite Hk. pose proof (adj_get_existsb (fst wa) (nadj n)) as X.
+      destruct (adj_get (fst wa) (nadj n)); [reflexivity|]. symmetry in X.
+      apply not_true_iff_false in X. exfalso. apply X. apply existsb_exists. exists wa. split; [assumption|apply Z.eqb_refl]. }
+  split; [rewrite K; apply keys_strip|]. split.
+  - intros y. rewrite N. apply nattrs_strip.
+  - intros y x. rewrite E, has_edge_strip. cbn [orb]. unfold eqpair. rewrite existsb_orb.
+    rewrite (all_adj_dir g y x Hnd).
+    replace (existsb (fun e => Z.eqb y (snd (fst e)) && Z.eqb x (fst (fst e))) (all_adj g)) with (has_edge g x y);
+      [reflexivity|].
+    rewrite <- (all_adj_dir g x y Hnd). apply existsb_ext. intros e. apply andb_comm.
+Qed.
+
+(** ------------------------------------------------------------ the remapping loop of contracted_nodes *)
+Lemma remap_step u v acc px d : u <> v -> px <> v ->
+  remap_edge false u v acc (v, px, d) = acc /\ px = u \/
+  (px <> u /\ exists d', remap_edge false u v acc (v, px, d) = add_edge acc u px d').
+Proof.
+  intros Huv Hpx. unfold remap_edge, same_pair, zin. rewrite Z.eqb_refl.
+  assert (E1 : Z.eqb px v = false) by now apply Z.eqb_neq.
+  assert (E2 : Z.eqb u v = false) by now apply Z.eqb_neq.
+  assert (E3 : Z.eqb v u = false) by (apply Z.eqb_neq; congruence).
+  rewrite E1, E2, E3, ?Z.eqb_refl. cbn [orb andb negb].
+  destruct (Z.eqb_spec px u) as [->|N].
+  - left. rewrite Z.eqb_refl. cbn. auto.
+  - right. split; [assumption|]. replace (Z.eqb u px) with false by (symmetry; apply Z.eqb_neq; congruence).
+    rewrite !orb_false_r. cbn [andb].
+    destruct (negb (has_edge acc u px)); eexists; reflexivity.
+Qed.
+
+Lemma remap_fold u v : u <> v -> forall l acc, has_node acc u = true ->
+  (forall wa, In wa l -> fst wa <> v /\ has_node acc (fst wa) = true) ->
+  let r := fold_left (remap_edge false u v) (map (fun wa => (v, fst wa, snd wa)) l) acc in
+  node_keys r = node_keys acc /\ (forall y, nattrs r y = nattrs acc y) /\
+  (forall y x, has_edge r y x
+               = has_edge acc y x || existsb (fun wa => negb (Z.eqb (fst wa) u) && eqpair y x u (fst wa)) l).
+Proof.
+  intros Huv. induction l as [|[px d] l IH]; intros acc Hu Hl; cbn zeta.
+  - cbn. repeat split; intros; rewrite ?orb_false_r; reflexivity.
+  - cbn [map fold_left fst snd]. destruct (Hl (px, d) (or_introl eq_refl)) as [Hpx Hn]. cbn [fst] in Hpx, Hn.
+    destruct (remap_step u v acc px d Huv Hpx) as [[-> ->]|[Npx [d' ->]]].
+    + destruct (IH acc Hu (fun wa H => Hl wa (or_intror H))) as (K & N & E).
+      repeat split; [exact K|exact N|]. intros y x. rewrite E. cbn [existsb fst]. rewrite Z.eqb_refl. reflexivity.
+    + pose proof (keys_add_edge acc u px d' Hu Hn) as K1.
+      destruct (IH (add_edge acc u px d')) as (K & N & E).
+      * rewrite (has_node_same_keys _ acc) by exact K1. exact Hu.
+      * intros wa H. destruct (Hl wa (or_intror H)) as [A B]. split; [exact A|].
+        rewrite (has_node_same_keys _ acc) by exact K1. exact B.
+      * repeat split; [congruence| |].
+        -- intros y. rewrite N. apply nattrs_add_edge; assumption.
+        -- intros y x. rewrite E, has_edge_add_edge by assumption. cbn [existsb fst].
+           replace (Z.eqb px u) with false by (symmetry; now apply Z.eqb_neq). cbn [negb andb].
+           rewrite orb_assoc. reflexivity.
+Qed.
+
+Lemma remap_exists l y x u :
+  existsb (fun wa : Z * attrs => negb (Z.eqb (fst wa) u) && eqpair y x u (fst wa)) l
+  = (Z.eqb y u && negb (Z.eqb x u) && existsb (fun wa => Z.eqb x (fst wa)) l)
+    || (Z.eqb x u && negb (Z.eqb y u) && existsb (fun wa => Z.eqb y (fst wa)) l).
+Proof.
+  induction l as [|[w a] l IH]; cbn [existsb fst].
+  - rewrite !andb_false_r. reflexivity.
+  - rewrite IH. unfold eqpair.
+    generalize (existsb (fun wa : Z * attrs => Z.eqb x (fst wa)) l) (existsb (fun wa : Z * attrs => Z.eqb y (fst wa)) l).
+    intros EX EY.
+    destruct (Z.eqb_spec w u), (Z.eqb_spec y u), (Z.eqb_spec x u), (Z.eqb_spec x w), (Z.eqb_spec y w);
+      subst; try congruence; destruct EX, EY; reflexivity.
+Qed.
+
+(** ------------------------------------------------------------ contracted_nodes *)
+Lemma nattrs_set_node_attr g j a v y :
+  nattrs (set_node_attr g j a v) y = if Z.eqb y j then option_map (aset a v) (nattrs g y) else nattrs g y.
+Proof. unfold nattrs. rewrite gfind_set_node_attr. destruct (Z.eqb y j); [|reflexivity]. destruct (gfind y g); reflexivity. Qed.
+Lemma has_edge_set_node_attr g j a v y x : has_edge (set_node_attr g j a v) y x = has_edge g y x.
+Proof. unfold has_edge. rewrite gfind_set_node_attr. destruct (Z.eqb y j); [|reflexivity]. destruct (gfind y g); reflexivity. Qed.
+Lemma keys_set_node_attr g j a v : node_keys (set_node_attr g j a v) = node_keys g.
+Proof. unfold set_node_attr. apply node_keys_gupdate. reflexivity. Qed.
+
+(** what one contraction does: the node list loses exactly v (order kept); the adjacency is
+    [contracted_edge]; v's attribute dict is stored under u's 'contraction'; every other node keeps
+    its attributes *)
+Theorem contracted_spec g u v au av : wf_graph g -> u <> v ->
+  nattrs g u = Some au -> nattrs g v = Some av ->
+  exists h, contracted false g u v = Ok h /\
+    node_keys h = filter (fun k => negb (Z.eqb k v)) (node_keys g) /\
+    (forall y x, has_edge h y x = contracted_edge g u v y x) /\
+    nattrs h u = Some (aset (S "contraction") (store_contraction au (VInt v) (attrs_to_pyval av)) au) /\
+    nattrs h v = None /\
+    (forall y, y <> u -> y <> v -> nattrs h y = nattrs g y).
+Proof.
+  intros [Hnd Hcl Hsym Hloop] Huv Hu Hv.
+  unfold nattrs in Hu, Hv.
+  destruct (gfind u g) as [nu|] eqn:Gu; [|discriminate]. destruct (gfind v g) as [nv|] eqn:Gv; [|discriminate].
+  cbn in Hu, Hv. inversion Hu; inversion Hv; subst au av. clear Hu Hv.
+  destruct (gcopy_spec g Hnd Hcl) as (K1 & N1 & E1).
+  set (h1 := gcopy g) in *.
+  pose proof (keys_remove_node h1 v) as K2. rewrite K1 in K2.
+  set (h2 := remove_node h1 v) in *.
+  assert (Euv : Z.eqb u v = false) by now apply Z.eqb_neq.
+  assert (Hu2 : has_node h2 u = true).
+  { apply has_node_keys. rewrite K2. apply filter_In. split; [|now rewrite Euv].
+    apply has_node_keys. apply has_node_gfind. eauto. }
+  assert (Hl : forall wa, In wa (nadj nv) -> fst wa <> v /\ has_node h2 (fst wa) = true).
+  { intros wa Hin.
+    assert (Ew : has_edge g v (fst wa) = true).
+    { unfold has_edge. rewrite Gv. pose proof (adj_get_existsb (fst wa) (nadj nv)) as X.
+      destruct (adj_get (fst wa) (nadj nv)); [reflexivity|]. symmetry in X. apply not_true_iff_false in X.
+      exfalso. apply X. apply existsb_exists. exists wa. split; [assumption|apply Z.eqb_refl]. }
+    assert (Nv : fst wa <> v) by (intro E; rewrite E, Hloop in Ew; discriminate).
+    split; [exact Nv|]. apply has_node_keys. rewrite K2. apply filter_In. split.
+    - apply has_node_keys. exact (Hcl _ _ Ew).
+    - apply Z.eqb_neq in Nv. now rewrite Nv. }
+  destruct (remap_fold u v Huv (nadj nv) h2 Hu2 Hl) as (K3 & N3 & E3).
+  unfold contracted. rewrite Gv. unfold edges_of. rewrite Gv. fold h1. fold h2.
+  set (h3 := fold_left (remap_edge false u v) (map (fun wa => (v, fst wa, snd wa)) (nadj nv)) h2) in *.
+  assert (N3u : nattrs h3 u = Some (na nu)).
+  { rewrite N3. unfold h2. rewrite nattrs_remove_node, Euv, N1. unfold nattrs. now rewrite Gu. }
+  unfold nattrs in N3u. destruct (gfind u h3) as [nu3|] eqn:Gu3; [|discriminate]. cbn in N3u. inversion N3u as [Hna].
+  eexists. split; [reflexivity|]. rewrite Hna.
+  split; [rewrite keys_set_node_attr, K3; exact K2|]. split; [|split; [|split]].
+  - intros y x. rewrite has_edge_set_node_attr, E3. unfold h2. rewrite has_edge_remove_node, E1, remap_exists.
+    rewrite <- !adj_get_existsb.
+    assert (Ev : forall z, (match adj_get z (nadj nv) with Some _ => true | None => false end) = has_edge g v z)
+      by (intros z; unfold has_edge; now rewrite Gv).
+    rewrite !Ev. unfold contracted_edge. rewrite (Hsym x y), (Hsym v y), orb_diag.
+    destruct (Z.eqb_spec y v) as [->|Nyv]; [|destruct (Z.eqb_spec x v) as [->|Nxv]].
+    + cbn [negb andb orb]. rewrite Z.eqb_sym, Euv. cbn [andb orb]. rewrite Hloop, !andb_false_r. reflexivity.
+    + cbn [negb andb orb]. rewrite (Z.eqb_sym v u), Euv, Hloop, !andb_false_r. reflexivity.
+    + cbn [negb andb orb].
+      destruct (Z.eqb_spec y u) as [->|Nyu], (Z.eqb_spec x u) as [->|Nxu]; cbn [negb andb orb];
+        rewrite ?orb_false_r; reflexivity.
+  - rewrite nattrs_set_node_attr, Z.eqb_refl. unfold nattrs. rewrite Gu3. cbn. rewrite Hna. reflexivity.
+  - rewrite nattrs_set_node_attr. rewrite (Z.eqb_sym v u), Euv, N3. unfold h2.
+    rewrite nattrs_remove_node, Z.eqb_refl. reflexivity.
+  - intros y Nyu Nyv. rewrite nattrs_set_node_attr. apply Z.eqb_neq in Nyu, Nyv. rewrite Nyu, N3. unfold h2.
+    rewrite nattrs_remove_node, Nyv. apply N1.
+Qed.
+
+(** ------------------------------------------------------------ well-formedness is kept *)
+Lemma wf_transfer g h : node_keys h = node_keys g -> (forall y x, has_edge h y x = has_edge g y x) ->
+  wf_graph g -> wf_graph h.
+Proof.
+  intros K E [Hnd Hcl Hsym Hloop]. constructor.
+  - now rewrite K.
+  - intros y x H. rewrite E in H. rewrite (has_node_same_keys h g) by exact K. eauto.
+  - intros y x. rewrite !E. apply Hsym.
+  - intros y. rewrite E. apply Hloop.
+Qed.
+
+Lemma wf_contracted g u v h : wf_graph g -> u <> v -> has_node g u = true -> has_node g v = true ->
+  node_keys h = filter (fun k => negb (Z.eqb k v)) (node_keys g) ->
+  (forall y x, has_edge h y x = contracted_edge g u v y x) -> wf_graph h.
+Proof.
+  intros [Hnd Hcl Hsym Hloop] Huv Hu Hv K E.
+  assert (HN : forall x, has_node h x = true <-> x <> v /\ has_node g x = true).
+  { intros x. rewrite !has_node_keys, K, filter_In. rewrite negb_true_iff, Z.eqb_neq. tauto. }
+  constructor.
+  - rewrite K. apply NoDup_filter. exact Hnd.
+  - intros y x H. rewrite E in H. unfold contracted_edge in H. apply HN.
+    destruct (Z.eqb y v) eqn:Eyv; [discriminate|]. destruct (Z.eqb x v) eqn:Exv; [discriminate|].
+    split; [now apply Z.eqb_neq|]. cbn [orb] in H.
+    destruct (Z.eqb x u) eqn:Exu; [apply Z.eqb_eq in Exu; now subst x|]. rewrite andb_false_r in H. cbn [andb] in H.
+    rewrite orb_false_r in H. apply orb_true_iff in H as [H|H]; [eauto|].
+    apply andb_true_iff in H as [_ H]. eauto.
+  - intros y x. rewrite !E. unfold contracted_edge.
+    rewrite (Hsym x y), (Hsym v y), (Hsym x v).
+    destruct (Z.eqb y v), (Z.eqb x v), (Z.eqb y u), (Z.eqb x u); cbn [orb andb]; try reflexivity;
+      destruct (has_edge g y x), (has_edge g v x), (has_edge g y v); reflexivity.
+  - intros y. rewrite E. unfold contracted_edge.
+    destruct (Z.eqb_spec y v) as [->|Nyv]; [reflexivity|]. cbn [orb].
+    destruct (Z.eqb_spec y u) as [->|Nyu]; cbn [andb orb]; [apply Hloop|]. rewrite Hloop. reflexivity.
+Qed.
+
+(** [squash_neighbours]: after merging v into u the kept atom is adjacent to exactly the atoms that were
+    adjacent to u or to v (other than u and v themselves); an atom that was adjacent to v is now
+    adjacent to u instead; nothing else changes; v is gone. *)
+Theorem squash_neighbours g u v au av h : wf_graph g -> u <> v ->
+  nattrs g u = Some au -> nattrs g v = Some av -> contracted squash_self_loops g u v = Ok h ->
+  wf_graph h /\ has_node h v = false /\
+  (forall x, x <> u -> x <> v -> has_edge h u x = has_edge g u x || has_edge g v x) /\
+  has_edge h u u = false /\
+  (forall y x, y <> u -> y <> v -> x <> u -> x <> v -> has_edge h y x = has_edge g y x) /\
+  (forall y x, has_edge h y x = contracted_edge g u v y x).
+Proof.
+  intros W Huv Hu Hv Hc. change squash_self_loops with false in Hc.
+  destruct (contracted_spec g u v au av W Huv Hu Hv) as (h' & Hc' & K & E & _).
+  rewrite Hc in Hc'. inversion Hc'; subst h'. clear Hc'.
+  assert (Hnu : has_node g u = true) by (unfold nattrs in Hu; apply has_node_gfind; destruct (gfind u g); [eauto|discriminate]).
+  assert (Hnv : has_node g v = true) by (unfold nattrs in Hv; apply has_node_gfind; destruct (gfind v g); [eauto|discriminate]).
+  split; [exact (wf_contracted g u v h W Huv Hnu Hnv K E)|]. split.
+  - apply not_true_iff_false. rewrite has_node_keys, K, filter_In, Z.eqb_refl. cbn. intros [_ X]. discriminate.
+  - destruct W as [_ _ Hsym Hloop]. repeat split.
+    + intros x Nxu Nxv. rewrite E. unfold contracted_edge. apply Z.eqb_neq in Nxu, Nxv, Huv.
+      rewrite Huv, Nxv, Nxu, Z.eqb_refl. cbn. rewrite orb_false_r. reflexivity.
+    + rewrite E. unfold contracted_edge. apply Z.eqb_neq in Huv. rewrite Huv, Z.eqb_refl. cbn. apply Hloop.
+    + intros y x A B C D. rewrite E. unfold contracted_edge. apply Z.eqb_neq in A, B, C, D.
+      rewrite A, B, C, D. cbn. rewrite !orb_false_r. reflexivity.
+    + exact E.
+Qed.
+
+(** ------------------------------------------------------------ membership lists *)
+Lemma dict_get_set_same k v d : pyval_eqb k k = true -> dict_get k (dict_set k v d) = Some v.
+Proof.
+  intros R. induction d as [|[k' v'] d IH]; cbn; [now rewrite R|].
+  destruct (pyval_eqb k k') eqn:E; cbn; rewrite E; [reflexivity|exact IH].
+Qed.
+Lemma dict_get_attrs k a : dict_get (VStr k) (map (fun kv : pystr * pyval => (VStr (fst kv), snd kv)) a) = aget k a.
+Proof. induction a as [|[k' v] a IH]; cbn; [reflexivity|]. destruct (str_eqb k k'); [reflexivity|exact IH]. Qed.
+Lemma store_get au v val : exists c, store_contraction au (VInt v) val = VDict c /\ dict_get (VInt v) c = Some val.
+Proof.
+  unfold store_contraction. destruct (aget (S "contraction") au) as [[| | | | | | |c]|];
+    try (eexists; split; [reflexivity|cbn; now rewrite Z.eqb_refl]).
+  eexists. split; [reflexivity|]. apply dict_get_set_same. cbn. apply Z.eqb_refl.
+Qed.
+
+Lemma concat_attr_spec h u v A c av attr a b :
+  nattrs h u = Some A -> aget (S "contraction") A = Some (VDict c) ->
+  dict_get (VInt v) c = Some (attrs_to_pyval av) ->
+  aget attr A = Some (VList a) -> aget attr av = Some (VList b) ->
+  concat_attr u v h attr = Ok (set_node_attr h u attr (VList (a ++ b))).
+Proof.
+  intros Hn Hc Hd Ha Hb. unfold concat_attr, node_attrs. unfold nattrs in Hn. unfold attrs_to_pyval in Hd.
+  destruct (gfind u h) as [n|]; [|discriminate]. cbn in Hn. inversion Hn; subst A.
+  cbn [bind]. rewrite Ha. cbn [of_option bind]. rewrite Hc. cbn [of_option bind]. rewrite Hd. cbn [of_option bind].
+  rewrite dict_get_attrs, Hb. reflexivity.
+Qed.
+
+(** [squash_membership]: one step of squash_atoms (contraction + the two concatenations) leaves the kept
+    atom with fragid = its own list followed by the removed atom's list, likewise mapping; all other
+    atoms keep their attribute dicts; adjacency as in [squash_neighbours]. *)
+Theorem squash_membership g u v au av fu fv mu mv : wf_graph g -> u <> v ->
+  nattrs g u = Some au -> nattrs g v = Some av ->
+  aget (S "fragid") au = Some (VList fu) -> aget (S "fragid") av = Some (VList fv) ->
+  aget (S "mapping") au = Some (VList mu) -> aget (S "mapping") av = Some (VList mv) ->
+  forall sq a b bond, starts_squash bond = Ok true -> sq_get sq a = u -> sq_get sq b = v ->
+  exists g2, squash_step (g, sq) (a, b, bond) = Ok (g2, sq_set v u sq) /\
+    node_keys g2 = filter (fun k => negb (Z.eqb k v)) (node_keys g) /\
+    (forall y x, has_edge g2 y x = contracted_edge g u v y x) /\
+    (exists A, nattrs g2 u = Some A /\ aget (S "fragid") A = Some (VList (fu ++ fv))
+               /\ aget (S "mapping") A = Some (VList (mu ++ mv))
+               /\ forall k, k <> S "fragid" -> k <> S "mapping" -> k <> S "contraction" -> aget k A = aget k au) /\
+    (forall y, y <> u -> y <> v -> nattrs g2 y = nattrs g y).
+Proof.
+  intros W Huv Hu Hv Fu Fv Mu Mv sq a b bond Hb Ha Hbv.
+  destruct (contracted_spec g u v au av W Huv Hu Hv) as (h & Hc & K & E & Nu & _ & No).
+  destruct (store_get au v (attrs_to_pyval av)) as (c & Sc & Dc).
+  unfold squash_step. rewrite Hb. cbn [bind negb]. rewrite Ha, Hbv.
+  change squash_self_loops with false. rewrite Hc. cbn [bind].
+  change squash_concat_attrs with [S "fragid"; S "mapping"]. cbn [fold_res].
+  set (A0 := aset (S "contraction") (store_contraction au (VInt v) (attrs_to_pyval av)) au) in *.
+  assert (C0 : aget (S "contraction") A0 = Some (VDict c)) by (unfold A0; rewrite aget_aset_same, Sc; reflexivity).
+  assert (NE1 : S "fragid" <> S "contraction") by (intro X; vm_compute in X; discriminate).
+  assert (NE2 : S "mapping" <> S "contraction") by (intro X; vm_compute in X; discriminate).
+  assert (NE3 : S "mapping" <> S "fragid") by (intro X; vm_compute in X; discriminate).
+  assert (NE4 : S "contraction" <> S "fragid") by (intro X; vm_compute in X; discriminate).
+  assert (NE5 : S "fragid" <> S "mapping") by (intro X; vm_compute in X; discriminate).
+  assert (NE6 : S "contraction" <> S "mapping") by (intro X; vm_compute in X; discriminate).
+  rewrite (concat_attr_spec h u v A0 c av (S "fragid") fu fv Nu C0 Dc)
+    by (try assumption; unfold A0; rewrite aget_aset_other by exact NE1; assumption).
+  cbn [bind].
+  set (h1 := set_node_attr h u (S "fragid") (VList (fu ++ fv))).
+  set (A1 := aset (S "fragid") (VList (fu ++ fv)) A0).
+  assert (N1 : nattrs h1 u = Some A1) by (unfold h1; rewrite nattrs_set_node_attr, Z.eqb_refl, Nu; reflexivity).
+  rewrite (concat_attr_spec h1 u v A1 c av (S "mapping") mu mv N1)
+    by (try assumption; unfold A1, A0; rewrite ?aget_aset_other by assumption; assumption).
+  cbn [bind]. eexists. split; [reflexivity|].
+  split; [unfold h1; rewrite !keys_set_node_attr; exact K|].
+  split; [intros y x; unfold h1; rewrite !has_edge_set_node_attr; apply E|]. split.
+  - eexists. split; [rewrite nattrs_set_node_attr, Z.eqb_refl, N1; reflexivity|]. cbn [option_map].
+    split; [unfold A1; rewrite aget_aset_other by exact NE5; apply aget_aset_same|].
+    split; [apply aget_aset_same|].
+    intros k X Y Z_. unfold A1, A0. rewrite !aget_aset_other by assumption. reflexivity.
+  - intros y Nyu Nyv. unfold h1. rewrite !nattrs_set_node_attr. apply Z.eqb_neq in Nyu. rewrite Nyu. apply No; [now apply Z.eqb_neq|assumption].
+Qed.
+
+(** ------------------------------------------------------------ the whole loop: node count *)
+Lemma concat_attr_shape keep rm g attr g' : concat_attr keep rm g attr = Ok g' ->
+  exists val, g' = set_node_attr g keep attr val.
+Proof.
+  unfold concat_attr. destruct (node_attrs g keep) as [n|]; cbn [bind]; [|discriminate].
+  destruct (aget attr n) as [old|]; cbn [of_option bind]; [|discriminate].
+  destruct (aget (S "contraction") n) as [c|]; cbn [of_option bind]; [|discriminate].
+  destruct c; cbn [bind]; try discriminate.
+  destruct (dict_get (VInt rm) d) as [vd|]; cbn [of_option bind]; [|discriminate].
+  destruct vd; cbn [bind]; try discriminate.
+  destruct (dict_get (VStr attr) d0) as [add|]; cbn [of_option bind]; [|discriminate].
+  destruct old; try discriminate. destruct add; try discriminate.
+  intros H. inversion H. eauto.
+Qed.
+Lemma concat_fold_shape keep rm l : forall g g', fold_res (concat_attr keep rm) l g = Ok g' ->
+  node_keys g' = node_keys g /\ (forall y x, has_edge g' y x = has_edge g y x).
+Proof.
+  induction l as [|attr l IH]; intros g g' H; cbn in H; [inversion H; auto|].
+  destruct (concat_attr keep rm g attr) as [g1|] eqn:E; cbn [bind] in H; [|discriminate].
+  destruct (concat_attr_shape _ _ _ _ _ E) as [val ->]. destruct (IH _ _ H) as [K Ed].
+  split; [rewrite K; apply keys_set_node_attr|]. intros y x. rewrite Ed. apply has_edge_set_node_attr.
+Qed.
+
+Lemma filter_remove_one (l : list Z) r : NoDup l -> In r l ->
+  (length (filter (fun k => negb (Z.eqb k r)) l) + 1 = length l)%nat.
+Proof.
+  induction l as [|x l IH]; intros Hnd Hin; [contradiction|]. inversion Hnd as [|? ? Hx Hl]; subst. cbn.
+  destruct (Z.eqb_spec x r) as [->|N]; cbn.
+  - replace (filter (fun k => negb (Z.eqb k r)) l) with l; [lia|].
+    clear - Hx. induction l as [|y l IH]; [reflexivity|]. cbn.
+    destruct (Z.eqb_spec y r) as [->|N]; [exfalso; apply Hx; now left|]. cbn. f_equal. apply IH.
+    intro H. apply Hx. now right.
+  - destruct Hin as [->|Hin]; [contradiction|]. rewrite <- (IH Hl Hin). lia.
+Qed.
+
+Lemma squash_step_bang gi sq a b bond g2 sq2 : wf_graph gi -> starts_squash bond = Ok true ->
+  sq_get sq a <> sq_get sq b -> has_node gi (sq_get sq a) = true -> has_node gi (sq_get sq b) = true ->
+  squash_step (gi, sq) (a, b, bond) = Ok (g2, sq2) ->
+  wf_graph g2 /\ node_keys g2 = filter (fun k => negb (Z.eqb k (sq_get sq b))) (node_keys gi)
+  /\ sq2 = sq_set (sq_get sq b) (sq_get sq a) sq.
+Proof.
+  intros W Hb Hne Hk Hr H. unfold squash_step in H. rewrite Hb in H. cbn [bind negb] in H.
+  set (keep := sq_get sq a) in *. set (rm := sq_get sq b) in *.
+  assert (exists au, nattrs gi keep = Some au) as [au Hu]
+    by (apply has_node_gfind in Hk as [n Hn]; unfold nattrs; rewrite Hn; cbn; eauto).
+  assert (exists av, nattrs gi rm = Some av) as [av Hv]
+    by (apply has_node_gfind in Hr as [n Hn]; unfold nattrs; rewrite Hn; cbn; eauto).
+  destruct (contracted_spec gi keep rm au av W Hne Hu Hv) as (h & Hc & K & E & _).
+  change squash_self_loops with false in H. rewrite Hc in H. cbn [bind] in H.
+  destruct (fold_res (concat_attr keep rm) squash_concat_attrs h) as [g2'|] eqn:F; cbn [bind] in H; [|discriminate].
+  inversion H; subst g2' sq2. clear H.
+  destruct (concat_fold_shape _ _ _ _ _ F) as [K2 E2].
+  pose proof (wf_contracted gi keep rm h W Hne Hk Hr K E) as Wh.
+  split; [exact (wf_transfer h g2 K2 E2 Wh)|]. split; [congruence|reflexivity].
+Qed.
+
+Definition bangs (l : list (Z * Z * pyval)) : list (Z * Z) :=
+  map (fun e => (fst (fst e), snd (fst e))) (filter item_is_bang l).
+
+Lemma squash_fold_count alive l : forall gi sq dead g' sq',
+  wf_graph gi -> (forall k, has_node gi k = zmem k alive && negb (zmem k dead)) ->
+  squash_safe alive sq dead (bangs l) = true ->
+  fold_res squash_step l (gi, sq) = Ok (g', sq') ->
+  wf_graph g' /\ (length (node_keys g') + length (bangs l) = length (node_keys gi))%nat.
+Proof.
+  induction l as [|[[a b] bond] l IH]; intros gi sq dead g' sq' W Hal Hs H.
+  - cbn in H. inversion H; subst. cbn. split; [assumption|lia].
+  - cbn [fold_res] in H.
+    assert (Eb : bangs ((a, b, bond) :: l) =
+                 match starts_squash bond with Ok true => (a, b) :: bangs l | _ => bangs l end).
+    { unfold bangs. cbn [filter]. unfold item_is_bang at 1. cbn [snd].
+      destruct (starts_squash bond) as [[|]|]; reflexivity. }
+    rewrite Eb in *. clear Eb.
+    destruct (starts_squash bond) as [[|]|] eqn:Hb.
+    + (* a `!` pair *)
+      cbn [map fst snd squash_safe length] in *.
+      set (keep := sq_get sq a) in *. set (rm := sq_get sq b) in *.
+      repeat (apply andb_true_iff in Hs as [Hs ?]).
+      destruct (squash_step (gi, sq) (a, b, bond)) as [[g2 sq2]|] eqn:St; cbn [bind] in H; [|discriminate].
+      assert (Hne : keep <> rm) by (apply Z.eqb_neq; now apply negb_true_iff).
+      assert (Hk : has_node gi keep = true) by (rewrite Hal, Hs; cbn; assumption).
+      assert (Hr : has_node gi rm = true) by (rewrite Hal; apply andb_true_iff; split; assumption).
+      destruct (squash_step_bang gi sq a b bond g2 sq2 W Hb Hne Hk Hr St) as (W2 & K2 & ->).
+      destruct (IH g2 (sq_set rm keep sq) (rm :: dead) g' sq' W2) as [Wg Len]; [|assumption|exact H|].
+      * intros k. apply Bool.eq_iff_eq_true.
+        rewrite has_node_keys, K2, filter_In, <- has_node_keys, Hal. cbn [zmem existsb].
+        fold (zmem k dead). rewrite negb_orb, !andb_true_iff, !negb_true_iff. tauto.
+      * split; [exact Wg|]. rewrite K2 in Len.
+        pose proof (filter_remove_one (node_keys gi) rm (wf_nodup _ W) (proj1 (has_node_keys _ _) Hr)) as FR.
+        cbn [length]. fold rm in Len. lia.
+    + (* an edge with another kind of descriptor pair *)
+      unfold squash_step in H. rewrite Hb in H. cbn [bind negb] in H. exact (IH gi sq dead g' sq' W Hal Hs H).
+    + unfold squash_step in H. rewrite Hb in H. cbn [bind] in H. discriminate.
+Qed.
+
+(** [squash_count]: when the bookkeeping of the `!` pairs is [squash_safe] (the pairs form a forest over
+    atoms and no kept atom is removed before it is looked up again) and squash_atoms returns, the fine
+    graph has exactly ONE NODE FEWER PER `!` PAIR, and it is again a well-formed simple graph. *)
+Theorem squash_count g g' : wf_graph g ->
+  squash_safe (node_keys g) [] [] (bang_items g) = true -> squash_atoms g = Ok g' ->
+  wf_graph g' /\ (length g' + length (bang_items g) = length g)%nat.
+Proof.
+  intros W Hs H. unfold squash_atoms in H.
+  destruct (fold_res squash_step (edge_attr_items g squash_edge_attr) (g, [])) as [[g2 sq2]|] eqn:F; cbn [bind fst] in H; [|discriminate].
+  inversion H; subst g2. clear H.
+  destruct (squash_fold_count (node_keys g) (edge_attr_items g squash_edge_attr) g [] [] g' sq2 W) as [Wg Len];
+    [|exact Hs|exact F|].
+  - intros k. cbn. rewrite andb_true_r. destruct (has_node g k) eqn:E.
+    + apply has_node_keys in E. symmetry. apply existsb_exists. exists k. split; [assumption|apply Z.eqb_refl].
+    + symmetry. apply not_true_iff_false. intro T. apply existsb_exists in T as (x & Hx & Ex).
+      apply Z.eqb_eq in Ex. subst x. apply has_node_keys in Hx. congruence.
+  - split; [exact Wg|]. unfold node_keys in Len. rewrite !map_length in Len. exact Len.
+Qed.
+
+(** ------------------------------------------------------------ a decidable sufficient test for wf_graph *)
+Fixpoint nodupz (l : list Z) : bool :=
+  match l with [] => true | x :: r => negb (existsb (Z.eqb x) r) && nodupz r end.
+Definition wf_graphb (g : graph) : bool :=
+  nodupz (node_keys g) &&
+  forallb (fun n => forallb (fun wa : Z * attrs => has_node g (fst wa) && has_edge g (fst wa) (nk n)
+                                                    && negb (Z.eqb (fst wa) (nk n))) (nadj n)) g.
+Lemma nodupz_NoDup l : nodupz l = true -> NoDup l.
+Proof.
+  induction l as [|x r IH]; cbn; [constructor|]. intros H. apply andb_true_iff in H as [A B].
+  constructor; [|auto]. intro Hin. apply negb_true_iff in A.
+  assert (existsb (Z.eqb x) r = true) by (apply existsb_exists; exists x; split; [assumption|apply Z.eqb_refl]). congruence.
+Qed.
+Lemma adj_get_In x l a : adj_get x l = Some a -> In (x, a) l.
+Proof.
+  induction l as [|[w b] l IH]; cbn; [discriminate|]. destruct (Z.eqb_spec w x) as [->|N].
+  - intros H. inversion H. now left.
+  - intros H. right. auto.
+Qed.
+Lemma wf_graphb_sound g : wf_graphb g = true -> wf_graph g.
+Proof.
+  unfold wf_graphb. intros H. apply andb_true_iff in H as [Hnd Hall].
+  rewrite forallb_forall in Hall.
+  assert (Key : forall y x, has_edge g y x = true ->
+                has_node g x = true /\ has_edge g x y = true /\ x <> y).
+  { intros y x He. unfold has_edge in He. destruct (gfind y g) as [n|] eqn:Gy; [|discriminate].
+    destruct (adj_get x (nadj n)) as [a|] eqn:Ga; [|discriminate].
+    pose proof (gfind_In _ _ _ Gy) as Hin. pose proof (gfind_key _ _ _ Gy) as Hk.
+    specialize (Hall n Hin). rewrite forallb_forall in Hall. specialize (Hall (x, a) (adj_get_In _ _ _ Ga)).
+    cbn [fst] in Hall. rewrite Hk in Hall. apply andb_true_iff in Hall as [Hall C]. apply andb_true_iff in Hall as [A B].
+    repeat split; try assumption. apply negb_true_iff in C. now apply Z.eqb_neq. }
+  constructor.
+  - now apply nodupz_NoDup.
+  - intros y x He. apply (Key y x He).
+  - intros y x. destruct (has_edge g y x) eqn:A; destruct (has_edge g x y) eqn:B; try reflexivity.
+    + destruct (Key y x A) as (_ & C & _). congruence.
+    + destruct (Key x y B) as (_ & C & _). congruence.
+  - intros y. destruct (has_edge g y y) eqn:A; [|reflexivity]. destruct (Key y y A) as (_ & _ & C). congruence.
+Qed.
+
+(** ------------------------------------------------------------ witnesses *)
+Definition atom_ (k : Z) (el : pystr) (arom : bool) (hc : pyval) (frag : Z) (adj : list (Z * attrs)) : nrec :=
+  {| nk := k;
+     na := [(S "element", VStr el); (S "charge", VInt 0); (S "aromatic", VBool arom); (S "hcount", hc);
+            (S "fragid", VList [VInt frag]); (S "mapping", VList [VTup [VStr (S "F"); VInt k]])];
+     nadj := adj |}.
+Definition single_ : attrs := [(S "order", VInt 1)].
+Definition arom_ : attrs := [(S "order", VFlt (S "1.5"))].
+Definition bang_ (o : pyval) : attrs := [(S "bonding", VTup [VStr (S "!a1"); VStr (S "!a1")]); (S "order", o)].
+Definition dollar_ : attrs := [(S "bonding", VTup [VStr (S "$a1"); VStr (S "$a1")]); (S "order", VInt 1)].
+
+(** one atom shared by three fragments in a chain A - B - C (two pairs), plus an ordinary bond *)
+Definition g_chain : graph :=
+  [atom_ 0 (S "C") false (VInt 3) 0 [(1, single_)];
+   atom_ 1 (S "C") false (VInt 1) 0 [(0, single_); (2, bang_ (VInt 1))];
+   atom_ 2 (S "C") false (VInt 2) 1 [(1, bang_ (VInt 1)); (3, bang_ (VInt 1))];
+   atom_ 3 (S "C") false (VInt 2) 2 [(2, bang_ (VInt 1)); (4, single_)];
+   atom_ 4 (S "O") false (VInt 0) 2 [(3, single_); (5, dollar_)];
+   atom_ 5 (S "C") false (VInt 2) 3 [(4, dollar_)]].
+Example squash_count_nonvacuous :
+  wf_graph g_chain /\ squash_safe (node_keys g_chain) [] [] (bang_items g_chain) = true /\
+  length (bang_items g_chain) = 2%nat /\
+  exists g', squash_atoms g_chain = Ok g' /\ length g' = 4%nat /\
+             node_get g' 1 (S "fragid") = Some (VList [VInt 0; VInt 1; VInt 2]) /\
+             neighbors g' 1 = [0; 4].
+Proof.
+  split; [apply wf_graphb_sound; vm_compute; reflexivity|]. split; [vm_compute; reflexivity|].
+  split; [vm_compute; reflexivity|]. eexists. split; [vm_compute; reflexivity|]. repeat split.
+Qed.
+
+(** REFUTED (class redundant-squash-cycle): three copies of one atom, every two joined by a `!` pair *)
+Definition g_triangle : graph :=
+  [atom_ 0 (S "C") false (VInt 2) 0 [(1, bang_ (VInt 1)); (2, bang_ (VInt 1))];
+   atom_ 1 (S "C") false (VInt 2) 1 [(0, bang_ (VInt 1)); (2, bang_ (VInt 1))];
+   atom_ 2 (S "C") false (VInt 2) 2 [(0, bang_ (VInt 1)); (1, bang_ (VInt 1))]].
+Lemma refuted_redundant_cycle :
+  wf_graph g_triangle /\ squash_atoms g_triangle = Err EKey /\
+  squash_safe (node_keys g_triangle) [] [] (bang_items g_triangle) = false.
+Proof. split; [apply wf_graphb_sound; vm_compute; reflexivity|]. split; vm_compute; reflexivity. Qed.
+
+(** REFUTED (class stale-squashed-entry): the hub atom 2 is shared with 0, 1 and 3; its pairs come in the
+    order (0,2) (1,2) (2,3): 0 is kept, then merged into 1, then looked up again *)
+Definition g_stale : graph :=
+  [atom_ 0 (S "C") false (VInt 2) 0 [(2, bang_ (VInt 1))];
+   atom_ 1 (S "C") false (VInt 2) 1 [(2, bang_ (VInt 1))];
+   atom_ 2 (S "C") false (VInt 0) 2 [(0, bang_ (VInt 1)); (1, bang_ (VInt 1)); (3, bang_ (VInt 1))];
+   atom_ 3 (S "C") false (VInt 2) 3 [(2, bang_ (VInt 1)); (4, single_)];
+   atom_ 4 (S "O") false (VInt 1) 3 [(3, single_)]].
+Lemma refuted_stale_entry :
+  wf_graph g_stale /\ squash_atoms g_stale = Err EKey /\
+  squash_safe (node_keys g_stale) [] [] (bang_items g_stale) = false.
+Proof. split; [apply wf_graphb_sound; vm_compute; reflexivity|]. split; vm_compute; reflexivity. Qed.
+
+(** REFUTED (class stale-hcount-aromatic): toluene with the ring atom shared, the methyl fragment first.
+    The bookkeeping is safe and squash_atoms returns, but the kept copy 0 still carries the hydrogen
+    count 1.5 of its own fragment although it now has three ring/methyl bonds: bonds + hcount exceed the
+    valence, which is what pysmiles' aromaticity correction reads next. *)
+From CGV Require Hydro.HydroCheck Hydro.SquashCheck.
+Definition g_toluene : graph :=
+  [atom_ 0 (S "C") true (VFlt (S "1.5")) 0 [(1, single_); (7, bang_ (VFlt (S "1.5")))];
+   atom_ 1 (S "C") false (VInt 3) 0 [(0, single_)];
+   atom_ 2 (S "C") true (VInt 1) 1 [(3, arom_); (7, arom_)];
+   atom_ 3 (S "C") true (VInt 1) 1 [(2, arom_); (4, arom_)];
+   atom_ 4 (S "C") true (VInt 1) 1 [(3, arom_); (5, arom_)];
+   atom_ 5 (S "C") true (VInt 1) 1 [(4, arom_); (6, arom_)];
+   atom_ 6 (S "C") true (VInt 1) 1 [(5, arom_); (7, arom_)];
+   atom_ 7 (S "C") true (VInt 0) 1 [(6, arom_); (2, arom_); (0, bang_ (VFlt (S "1.5")))]].
+Lemma refuted_stale_hcount :
+  wf_graph g_toluene /\ squash_safe (node_keys g_toluene) [] [] (bang_items g_toluene) = true /\
+  exists g', squash_atoms g_toluene = Ok g' /\
+             SquashCheck.stale_hcount_aromatic (observe g') = true /\
+             node_get g' 0 (S "hcount") = Some (VFlt (S "1.5")) /\ bonds_half g' 0 = Ok 8.
+Proof.
+  split; [apply wf_graphb_sound; vm_compute; reflexivity|]. split; [vm_compute; reflexivity|].
+  eexists. split; [vm_compute; reflexivity|]. repeat split.
+Qed.
